@@ -261,7 +261,8 @@ def build(features, pid="P1", seed=0):
         part.add(sc.IncreasingLoudnessDirection("crescendo", wedge=True), B.t(m2), B.t(m3))
     if "wedge" in f:
         part.add(sc.IncreasingLoudnessDirection("crescendo", wedge=True), B.t(m2), B.t(m2 + 1))
-        part.add(sc.DecreasingLoudnessDirection("diminuendo", wedge=True), B.t(m3), B.t(m3 + 2))
+        # (with two staves the second hairpin stands below the lower staff)
+        part.add(sc.DecreasingLoudnessDirection("diminuendo", wedge=True, staff=(2 if "two_staves" in f else None)), B.t(m3), B.t(m3 + 2))
     if "dashes" in f:
         direction("cresc.", m1 + 2, m2 + 1)
     if "words" in f:
@@ -271,7 +272,7 @@ def build(features, pid="P1", seed=0):
         # open-ended loudness, tempo and articulation marks interleaved: each lasts until the next mark OF ITS OWN family
         part.add(sc.ConstantLoudnessDirection("p"), B.t(m1))
         part.add(sc.ConstantTempoDirection("allegro", raw_text="Allegro"), B.t(m1))
-        part.add(sc.ConstantArticulationDirection("legato"), B.t(m1 + 2))
+        part.add(sc.ConstantArticulationDirection("legato", staff=(2 if "two_staves" in f else None)), B.t(m1 + 2))
         part.add(sc.ConstantLoudnessDirection("f"), B.t(m2))
         part.add(sc.ConstantArticulationDirection("staccato"), B.t(m2 + 2))
         part.add(sc.ConstantTempoDirection("adagio", raw_text="Adagio"), B.t(m3))
@@ -380,6 +381,7 @@ def catalogue(tier="quick"):
         ("two_staves_direction_inside_the_last_note_pickup", ["pickup", "two_staves", "direction_inside_last_note", "tie_barline"]),
         ("tuplet_that_starts_in_voice_3_and_ends_in_voice_1", ["tuplet_cross_voice"]),
         ("polyphony_ties", ["polyphony", "tie_barline", "tie_cross_voice", "two_staves"]),
+        ("two_staves_hairpin_and_words_on_the_lower_staff", ["two_staves", "wedge", "constant_directions_of_three_families", "dynamics"]),
         ("underfilled_measures_in_two_parts_with_a_pickup", ["pickup", "underfilled_measures", "group"]),
     ]
     out += combos
